@@ -415,8 +415,14 @@ pub fn step(app: &mut SApp, nm: &Names, st: &SState, op: &SOp, cfg: &Cfg, ops_al
         SOp::SetBlock { secs } => {
             let mut b = app.block_info();
             b.time = b.time.plus_seconds(*secs);
-            b.height += 7;
-            b.chain_id = "renamed-chain".into();
+            if *secs == UNBONDING {
+                // exactly the block update_block would give (the states merge with those of the
+                // advance operation; only the way the block is set differs)
+                b.height += 1;
+            } else {
+                b.height += 7;
+                b.chain_id = "renamed-chain".into();
+            }
             app.set_block(b);
             Ok(())
         }
@@ -969,6 +975,8 @@ pub fn alphabet_c14(tier: Tier, full: bool) -> Vec<SOp> {
         SOp::Undelegate { d: 1, v: 0, amt: 2, denom: 0 },
         SOp::Slash { v: 0, pct: 100 },
         SOp::Undelegate { d: 0, v: 1, amt: 1, denom: 0 },
+        // a block update made with set_block (not update_block) that reaches the unbonding period
+        SOp::SetBlock { secs: UNBONDING },
     ];
     if full || tier == Tier::Thorough {
         v.extend([
